@@ -155,6 +155,31 @@ CHECKS["C07"] = dict(
          "minimise against the model and against an independent table-filling Myhill-Nerode count in the harness (a test, not a proof)."),
    note=TB + "Hypothesis of every theorem: the rule table is a dict (pairwise distinct (letter,args) keys) and state/letter equality is structural (hash collisions outside the model).  minimise is modelled with mapping=None, read_union with the default fusion; __mul__, size, alphabet, __str__ are not modelled.  'Reduced' = trim (every state reachable and productive).",
    design="5/C07")
+CHECKS["C04"] = dict(
+   technique="Coq proof of the rule-table models (Gram/Det.v, Gram/U.v) + correspondence of the extracted model run on the implementation's own serialised rule table and exact float weights",
+   text=("Theorems (Props/C04.v, closed under the global context).  For every deterministic / tree-traversing rule table: the stack-threaded "
+         "membership traversal equals the structural derivation (C04_det_threading); probability() is the product of the rule weights of the "
+         "derivation on members and 0 outside (C04_det_probability, C04_det_product_*, C04_outside_zero); the enumerated language is duplicate-free "
+         "and is exactly the members (C04_count) and, for a well-formed weighted table, complete (C04_language_complete) with probabilities summing "
+         "to 1 (C04_sum_to_one); uniform()/normalise() yield positive weights summing to 1 (C04_uniform, C04_normalise); learnt tags are normalised "
+         "(C04_from_samples_partial).  Unambiguous grammars, PARTIAL: membership/reduce_derivations equal the stack-free derivation list, "
+         "probability = its head times the start tag, 0 outside (C04_u_*); sum, count, unambiguity and uniform/normalise of unambiguous grammars are "
+         "covered by the correspondence only.  Each run compares membership, probability, programs(), language size, float sum and tags on "
+         "CFG.depth_constraint, TTCFG.size_constraint, UCFG.from_CFG and UCFG.from_DFTA (several start symbols) with uniform / random / hand / learnt "
+         "weights under several hash seeds."),
+   note=TB + "Float tolerance (k(m+2)+2)*2^-52 on probabilities and 1e-9 on sums; finite grammars of at most 2500 programs; no Function(P,[]); U rules have >= 1 alternative, all of equal length; the exact model sum is only computed for languages of <= 300 programs (<= 1200 for TTCFG); samples given to pcfg_from_samples are members; grammar construction itself is not the subject of this check (C01/C13).  Known finding c04_unproductive_rules: size_constraint/clean keep rules with an uninhabited argument type, so a normalised grammar can sum to less than 1.",
+   design="5/C04")
+CHECKS["C17"] = dict(
+   technique="Coq proof of the constant-instantiation model on rule and weight tables + extracted-model/implementation correspondence",
+   text=("Theorems (Props/C17.v, closed) for deterministic / tree-traversing tables with duplicate-free value lists: the language of the instantiated "
+         "table is exactly all instantiations of the original programs (C17_language), each exactly once (C17_exactly_once: NoDup + Permutation); "
+         "the mass of a template equals the sum over its instantiations when no slot type has an empty list (C17_mass); well-formedness and sum = 1 "
+         "are preserved (C17_normalised); Program.all_constants_instantiation agrees with the specification (C17_program_side); "
+         "C17_empty_list_refuted / C17_duplicate_value_refuted are witnesses for the empty-list finding and for the duplicate-value defect fixed in "
+         "/repo.  Unambiguous grammars: the same instantiation function, correspondence only.  Each run compares instantiated rule tables, tags, "
+         "membership of instantiations and near misses, probabilities, programs(), all_constants_instantiation, mass and sum."),
+   note=TB + "Values are ints / bools / lists, never None; TTCFGs with constants are exercised through CFG (size_constraint has no constant slots).  Known finding c17_empty_value_list: an empty value list for a slot type drops the slot's mass (no obviously right repair: raise, renormalise or keep the slot).",
+   design="5/C17")
 NOT_YET = {}
 def main():
     props = [json.loads(l) for l in open(os.path.join(V, "properties.jsonl"))]
